@@ -76,14 +76,14 @@ def _slice_get(it, st, args, ctx):
     return mk_option(ok, Ptr(ptr.cell, ptr.path + (('i', idx),)))
 
 
-@summary(r'^core::slice::<impl \[.*\]>::(first|last)$')
+@summary(r'^core::slice::<impl \[.*\]>::(first|last)(_mut)?$|^Vec::<.*>::(first|last)(_mut)?$')
 def _slice_first(it, st, args, ctx):
     ptr, s = seq_of(it, st, args[0])
     if not s.fields:
         return mk_none()
     if ptr is None:
         ptr = Ptr(st.alloc(s))
-    i = 0 if ctx.callee.endswith('first') else len(s.fields) - 1
+    i = 0 if 'first' in ctx.callee.rsplit('::', 1)[-1] else len(s.fields) - 1
     return mk_some(Ptr(ptr.cell, ptr.path + (('i', i),)))
 
 
@@ -849,7 +849,7 @@ def map_iter(mm, what):
     return mk_iter(IterM('mapiter', items=items, pos=0, what=what, by_ref=True))
 
 
-_MAP_T = r'(std::collections::)?(HashMap|HashSet|BTreeMap|BTreeSet)::<.*>'
+_MAP_T = r'(std::collections::|dashmap::)?(HashMap|HashSet|BTreeMap|BTreeSet|DashMap|DashSet)::<.*>'
 _IMBL_T = r'(imbl::)?(HashMap|OrdMap)::<.*>'
 
 
